@@ -130,6 +130,9 @@ func ExtractTimeStamp(raw []byte, timestampKey *string) uint64 {
 			ts_millis = uint64(val)
 		}
 
+		if IsTimeInNano(ts_millis) {
+			ts_millis /= 1000000
+		}
 		if !IsTimeInMilli(ts_millis) {
 			ts_millis *= 1000
 		}
